@@ -331,17 +331,16 @@ theorem set_refines_seq (ops : List SOp) (xs : List Val) :
 def noDefectOps (ops : List Op) : Bool := ops.all (fun o => !defectOp o)
 
 /-- **Per-operation refinement on the heap**: for every heap and every operation other than
-    the two excluded kinds, performing it as the code does gives the same heap and the same
-    result (value or error class) as performing it on the reference containers. -/
+    the one excluded kind (byte_slice slicing), performing it as the code does gives the same
+    heap and the same result (value or error class) as performing it on the reference
+    containers. `list.map` is covered for every callback shape, the ones that return or store
+    their index object included. -/
 theorem refines_step (h : Heap) (op : Op) (hd : defectOp op = false) :
     step .impl h op = step .spec h op := by
   cases op <;>
     simp only [step, getItem_refines, setItem_refines, pop_refines, delItem_refines, insert_refines,
-      remove_refines, count_refines, slice_refines, reverse_refines, strGet_refines] <;> try rfl
-  · rename_i r cb
-    have hcb : cb ≠ .idx := by intro e; subst e; simp [defectOp] at hd
-    simp only [mapIdx_refines cb hcb]
-  · simp [defectOp] at hd
+      remove_refines, count_refines, slice_refines, reverse_refines, strGet_refines,
+      mapIdx_refines] <;> try rfl
   · simp [defectOp] at hd
 
 /-- The full statement of the refinement half of the property: EVERY operation sequence
@@ -350,8 +349,8 @@ def C16_full_refines : Prop :=
   ∀ (h : Heap) (ops : List Op), run .impl h ops = run .spec h ops
 
 /-- **Lifted to sequences (the strongest true part)**: for every heap and every operation
-    sequence of any length that contains no index-leaking `list.map` callback and no
-    byte_slice slicing, running it as the code does gives the same final heap and the same
+    sequence of any length that contains no byte_slice slicing (`list.map` with callbacks that
+    keep their index is INCLUDED since its repair), running it as the code does gives the same final heap and the same
     list of results as the reference containers. -/
 theorem C16_partial_refines_seq (h : Heap) (ops : List Op) (hg : noDefectOps ops = true) :
     run .impl h ops = run .spec h ops := by
@@ -366,25 +365,53 @@ theorem C16_partial_refines_seq (h : Heap) (ops : List Op) (hg : noDefectOps ops
 /-- `["a","b","c"]` -/
 def cexList : Heap := { objs := [.list [.str [97], .str [98], .str [99]]], arrs := [] }
 
-/-- **The unchanged code violates the full statement (1)**:
-    `["a","b","c"].map(func(i, x) { return i })` yields `[2, 2, 2]`, the reference `[0, 1, 2]`. -/
-theorem C16_counterexample_map_index : ¬ C16_full_refines := by
-  intro h
-  have := h cexList [.lMap 0 .idx]
-  revert this
-  decide
+/-- **`list.map` gives every callback its own index** (all heaps, all lists, all callback
+    shapes; formerly the first counterexample to the full statement): a two-parameter
+    callback that returns its index, and one that appends its index to another list (or to
+    the mapped list itself), produce exactly what the reference map produces. -/
+theorem C16_map_index_refines (h : Heap) (r acc : Nat) (cb : Impl.Cb) :
+    step .impl h (.lMap r cb) = step .spec h (.lMap r cb) ∧
+    step .impl h (.lMapAcc r acc) = step .spec h (.lMapAcc r acc) :=
+  ⟨refines_step h _ rfl, refines_step h _ rfl⟩
 
-theorem C16_counterexample_map_index_values :
-    (step .impl cexList (.lMap 0 .idx)).1.objs[1]? = some (.list [.int 2, .int 2, .int 2]) ∧
+/-- the result of `xs.map(func(i, x) { return i })` is `[0, 1, …, n-1]` for EVERY list -/
+theorem map_index_positions (xs : List Val) :
+    Impl.mapIdx .idx xs = (List.range xs.length).map (fun (i : Nat) => Val.int (i : Int)) := by
+  rw [mapIdx_refines]
+  have key : ∀ (ys : List Val) (i : Nat),
+      Spec.mapIdxFrom .idx i ys = (List.range' i ys.length).map (fun (k : Nat) => Val.int (k : Int)) := by
+    intro ys
+    induction ys with
+    | nil => intro i; simp [Spec.mapIdxFrom]
+    | cons y ys ih => intro i; simp [Spec.mapIdxFrom, ih, List.range'_succ]
+  rw [Spec.mapIdx, key, List.range_eq_range']
+
+/-- the design-time probe, on the machine as it is now:
+    `["a","b","c"].map(func(i, x) { return i })` yields `[0, 1, 2]` in both readings -/
+theorem C16_map_index_values :
+    (step .impl cexList (.lMap 0 .idx)).1.objs[1]? = some (.list [.int 0, .int 1, .int 2]) ∧
     (step .spec cexList (.lMap 0 .idx)).1.objs[1]? = some (.list [.int 0, .int 1, .int 2]) := by decide
 
-/-- the defect in general: for EVERY list of length ≥ 2 the code's result differs from the
-    reference result (it is `n` copies of `n-1`) -/
-theorem map_index_defect_general (xs : List Val) (h : 2 ≤ xs.length) :
-    Impl.mapIdx .idx xs = List.replicate xs.length (.int ((xs.length : Int) - 1)) ∧
-    Impl.mapIdx .idx xs ≠ Spec.mapIdx .idx xs := by
-  refine ⟨mapIdx_idx xs, ?_⟩
-  rw [mapIdx_idx]
+/-- **HISTORICAL — the defect repaired by `fix: give every list.map callback its own index
+    object`**: the code before the repair (`Impl.preFixMapIdx`: one reused index object)
+    turned `["a","b","c"].map(func(i, x) { return i })` into `[2, 2, 2]`, the reference and
+    the repaired code give `[0, 1, 2]`. -/
+theorem C16_fixed_map_index_was_shared :
+    Impl.preFixMapIdx .idx [.str [97], .str [98], .str [99]] = [.int 2, .int 2, .int 2] ∧
+    Spec.mapIdx .idx [.str [97], .str [98], .str [99]] = [.int 0, .int 1, .int 2] ∧
+    Impl.mapIdx .idx [.str [97], .str [98], .str [99]] = [.int 0, .int 1, .int 2] := by decide
+
+/-- HISTORICAL — the repaired defect in general: for EVERY list of length ≥ 2 the result of
+    the code before the repair differed from the reference result (it was `n` copies of
+    `n-1`), while the repaired loop agrees with the reference; callbacks that did not let
+    the index escape were right before the repair too. -/
+theorem C16_fixed_map_index_defect_general (xs : List Val) (h : 2 ≤ xs.length) :
+    Impl.preFixMapIdx .idx xs = List.replicate xs.length (.int ((xs.length : Int) - 1)) ∧
+    Impl.preFixMapIdx .idx xs ≠ Spec.mapIdx .idx xs ∧
+    Impl.mapIdx .idx xs = Spec.mapIdx .idx xs ∧
+    (∀ cb, cb ≠ Impl.Cb.idx → Impl.preFixMapIdx cb xs = Spec.mapIdx cb xs) := by
+  refine ⟨preFixMapIdx_idx xs, ?_, mapIdx_refines _ xs, fun cb hcb => preFixMapIdx_refines cb hcb xs⟩
+  rw [preFixMapIdx_idx]
   cases xs with
   | nil => simp at h
   | cons x xs =>
@@ -397,7 +424,7 @@ theorem map_index_defect_general (xs : List Val) (h : 2 ≤ xs.length) :
 /-- `byte_slice([1,2,3,4])` -/
 def cexBytes : Heap := { objs := [.bytes 0 0 4], arrs := [[1, 2, 3, 4]] }
 
-/-- **The unchanged code violates the full statement (2)**: `c := b[1:3]; c[0] = "z"`
+/-- **The unchanged code violates the full statement**: `c := b[1:3]; c[0] = "z"`
     changes `b` as well: the slice is a view on the same bytes, not an independent copy. -/
 theorem C16_counterexample_bytes_slice : ¬ C16_full_refines := by
   intro h
@@ -410,8 +437,9 @@ theorem C16_counterexample_bytes_slice_values :
     bytesContent (run .impl cexBytes ops).1 0 0 4 = [1, 122, 3, 4] ∧
     bytesContent (run .spec cexBytes ops).1 0 0 4 = [1, 2, 3, 4] := by decide
 
+/-- the guard excludes the byte_slice counterexample and nothing of `list.map` -/
 theorem C16_counterexample_guards :
-    noDefectOps [.lMap 0 .idx] = false ∧
+    noDefectOps [.lMap 0 .idx, .lMapAcc 0 1] = true ∧
     noDefectOps [.bSlice 0 (some (.int 1)) (some (.int 3)), .bSet 1 (.int 0) (.str [122])] = false := by decide
 
 /-! ## 5. Read-only operations never mutate; copies and slices are independent -/
@@ -780,7 +808,12 @@ example : Impl.reverse [.int 1, .int 2, .int 3, .int 4] = [.int 4, .int 3, .int 
 example : Impl.strGet [104, 195, 169, 108] 1 = some [195, 169] := by decide
 -- a guard-satisfying mixed sequence with aliasing: slice, mutate both, copy, pop
 example : noDefectOps [.lSlice 0 (some (.int 0)) (some (.int 2)), .lSet 1 (.int 0) (.int 9), .lPop 0 (.int (-1)),
-    .lCopy 0, .lMap 0 .idxPlus, .lInsert 0 (.int (-9)) (.int 5)] = true := by decide
+    .lCopy 0, .lMap 0 .idxPlus, .lMap 0 .idx, .lMapAcc 0 1, .lInsert 0 (.int (-9)) (.int 5)] = true := by decide
+-- index-keeping callbacks: the returned indices, and the indices stored in another list
+example : (run .impl { objs := [.list [.str [97], .str [98], .str [99]], .list []], arrs := [] }
+    [.lMap 0 .idx, .lMapAcc 0 1]).1.objs
+    = [.list [.str [97], .str [98], .str [99]], .list [.int 0, .int 1, .int 2], .list [.int 0, .int 1, .int 2],
+       .list [.str [97], .str [98], .str [99]]] := by decide
 example : (run .impl cexList [.lSlice 0 (some (.int 0)) (some (.int 2)), .lSet 1 (.int 0) (.int 9), .lPop 0 (.int (-1))]).1.objs
     = [.list [.str [97], .str [98]], .list [.int 9, .str [98]]] := by decide
 -- comparators that satisfy `GoodCmp` exist (e.g. integer lists, `cmpVal_int`)
